@@ -238,23 +238,27 @@ CLAIMED = {
         note='Trusted: Coq kernel, translator, extraction, harness, sort-trace hook; refdec.py as independent reading of the standard. No axioms.',
         technique='Coq proof: symbol membership, exact lengths, padding form and header order for all inputs; conformance of the mode stream: theorem for two configurations, sound Coq-checked certificate per output otherwise'),
     'C17': dict(
-        category='translation_validation',
-        text='Theorems (Coq, axiom-free): C17_graph_is_boundary -- for every bitmap the outline graph has an edge exactly between modules of '
-             'different colour; C17_evenodd_fills_dark -- for every bitmap and EVERY path, whatever produced it: a well-formed path '
-             '(axis-parallel non-zero segments, closed sub-paths, Move relative to the point the Close returned to, inside the bounding box) '
-             'whose vertical unit edges have odd multiplicity exactly on the boundary blackens exactly the dark modules under the even-odd '
-             'rule of Spec/EvenOdd.v (telescoping parity argument along each row); C17_pixels -- pixels() yields exactly the dark modules in '
-             'row-major order, for all bitmaps. What is NOT a theorem: that the Hierholzer decomposition in Bitmap::path (alternatives/insert '
-             'bookkeeping, Jump, compress_path) uses every boundary edge exactly once on EVERY bitmap. That is decided per output by a '
-             'certificate check proved sound in Coq (C17_check_sound: accepted => well-formed and fills exactly the dark modules), run, extracted, '
-             'on every path the implementation returns; the implementation is also compared with a Gallina model of the algorithm and re-filled '
-             'by an independent Python rasteriser (two ray directions). Inputs: symbols of all 48 sizes, all bitmaps up to 3x3 with a dark '
-             'top-left module, random bitmaps, constructed topologies (checkerboards, nested rings, islands, combs, spiral, holes). unicode() is '
-             'compared with its model and the Python oracle.',
+        category='proof',
+        text='Theorems (Coq, axiom-free). C17_path_renders_dark -- for EVERY bitmap (any width, height and contents) with a dark top-left module: '
+             'whenever the model of Bitmap::path (bits_to_edge_graph, edge_left with its hint, the walk / euler / tours loops with the insert and '
+             'alternatives bookkeeping of the Hierholzer splicing, Jump between components, compress_path) returns a path, that path is well-formed '
+             '(axis-parallel non-zero segments, closed sub-paths, Move relative to the point the Close returned to, inside the bounding box) and its '
+             'even-odd filling is exactly the set of dark modules. Its parts: C17_tours_decompose (the micro steps are closed tours of unit moves in '
+             'the box that use every edge of the outline graph exactly once and nothing else -- invariants of walk, euler and tours, splice lemmas), '
+             'C17_compress_path (compress_path preserves the drawn vertical unit edges and produces a well-formed path), C17_graph_is_boundary (the '
+             'outline graph is the dark/light boundary), C17_evenodd_fills_dark (any well-formed path with odd multiplicity exactly on the boundary '
+             'fills exactly the dark modules; telescoping parity argument), C17_pixels (pixels() = the dark modules in row-major order), C17_unicode '
+             '(each block character shows the two modules it covers, inside a one-module light border). The path theorem is partial correctness: that '
+             'the expect() sites and the loop bounds of the model are never hit is not proved; the correspondence run (implementation path = model '
+             'path, byte for byte) covers it per input. In addition every path the implementation returns is passed through a certificate check proved '
+             'sound in Coq (C17_check_sound, extracted) and re-filled by an independent Python rasteriser. Inputs of the correspondence: symbols of all '
+             '48 sizes, all bitmaps up to 3x3 with a dark top-left module, random bitmaps, constructed topologies (checkerboards, nested rings, islands, '
+             'combs, spiral, holes), one bitmap with more than 65535 outline edges.',
         design_ref='DESIGN.md 6/C17',
-        note='Level: verified certificate checking per output + theorems for the geometry; the path algorithm itself is not verified for all bitmaps. '
-             'Trusted: Coq kernel, Spec/EvenOdd.v as the meaning of even-odd filling, extraction, harness. No axioms.',
-        technique='Coq: boundary/even-odd theorem for all bitmaps and paths + sound certificate checker run on each implementation output; algorithm model tied by correspondence'),
+        note='Level: proof of the property for the Gallina model of the algorithm (partial correctness: for every path that is returned) + '
+             'correspondence of model and implementation + verified certificate checking per output. '
+             'Trusted: Coq kernel, Spec/EvenOdd.v as the meaning of even-odd filling, extraction, harness, the hand-written model Model/Path.v (tied by the correspondence run). No axioms.',
+        technique='Coq proof: invariants of the Hierholzer loops (walk/euler/tours), compress_path, even-odd parity theorem; pixels and unicode specs; model tied by correspondence, sound certificate checker run on each implementation output'),
     'C04': dict(
         text='Theorem C04_scripts (Coq, axiom-free): for ALL byte strings and ALL encoder scripts over all six encodation schemes of ISO/IEC '
              '16022 -- any sequence, in any order and number, of ASCII runs (digit pairs or single digits at the encoder\'s choice, Upper Shift), '
